@@ -932,6 +932,12 @@ def run(ctx):
     impl, model, errs = common.run_both([harness, "run"], [driver], lines, chunk=1500)
     res = evaluate(lines, impl, model)
     nvm, vmbad = vm_crosscheck(lines, model)
+    # floating-point tie: the compiled code against the Flocq binary64/binary32 model ExpandFloat.v, evaluated inside Coq
+    import sys
+    from checks import c18_float
+    ftie, fbad = c18_float.float_tie(ctx, sys.modules[__name__], harness,
+                                     counts=(36, 36, 24) if ctx.quick else (40, 36, 20),
+                                     extra_lines=[l for l in lines[:ncorpus] if l.startswith(("ED ", "EF ", "CE ")) and len(l) < 300][:4])
     stmt, diff, orc = [], [], []
     classes, tags, kinds = {}, {}, {"ED": 0, "EF": 0, "CE": 0}
     nontriv = set()
@@ -971,6 +977,13 @@ def run(ctx):
         if vmbad:
             ctx.violation("extracted model differs from vm_compute inside Coq: " + vmbad[0][:300],
                           {"broken": "extraction of coq/Expand.v", "detail": vmbad[:3]}, found_input=False)
+        if fbad:
+            ctx.violation("the compiled expansion functions differ from the floating-point model ExpandFloat.v (%d of %d cases): %s"
+                          % (len(fbad), ftie["cases"], fbad[0][0][:300]),
+                          {"broken": "correspondence of coq/ExpandFloat.v (theorems c18f_* of Properties_C18.v)",
+                           "first_difference": {"case": fbad[0][1], "implementation": fbad[0][2][:600], "model": fbad[0][3][:600],
+                                                "why": fbad[0][0][:600]},
+                           "differences": len(fbad)}, found_input=False)
         if not proof_ok:
             ctx.violation("proof obligations of Properties_C18.v do not check", {"broken": "Properties_C18.v", "detail": proof},
                           found_input=False)
@@ -995,11 +1008,17 @@ def run(ctx):
                               "d+r(ed-d), below d, arbitrary; congestion maps of 0-7 rectangles snapped to cell corners or random, values "
                               "1+j/16 (j>=-8) or decimal; scale x8..x4096 on 6-12%",
         "extraction_crosschecked_by_vm_compute": nvm,
+        "floating_point_tie": ftie,
         "model_vs_impl_differences": len(diff), "impl_outputs_violating_statement": len(stmt),
         "oracle_vs_model_differences": len(orc)})
     return ctx.finish(LEVEL, cov, [
         "domain of the theorems: cell sizes >= 0 (the C++ does not reject negative sizes), caps >= 0",
-        "the model idealises floating point (exact rationals); ties are exact on the exact class and within the stated tolerance elsewhere",
+        "the model Expand.v idealises floating point (exact rationals); ties are exact on the exact class and within the stated tolerance elsewhere",
+        "the theorems c18f_* are about the Flocq binary64/binary32 model ExpandFloat.v (one IEEE operation per C++ operator, round to nearest "
+        "even: x86-64 SSE2, no -ffast-math, no FMA contraction -- a build with -mfma / -ffp-contract=fast or x87 arithmetic is outside the "
+        "model); domain: sizes in [0, 2^31), areas below 2^63, finite arguments, target <= 1, factors in [1, 2^100], congestion values and "
+        "penalties <= 2^40; they use the axioms of Coq's classical real numbers (sig_forall_dec, sig_not_dec, functional_extensionality_dep); "
+        "it is tied to the compiled code integer for integer / bit for bit on <= 100 non-dyadic cases per run (floating_point_tie)",
         "expandCellsByFactor takes float factors: outside the exact class its area bound is re-checked with the slack 2 per movable cell + "
         "2^-22 relative (factor rounding); F18 (binary32 area accumulation / width products, fixed by dfb6548) is what the cases with "
         "a movable cell wider than 2^24 and corpus lines 11-12 look for"])
